@@ -42,6 +42,7 @@ func typedOpProgs() []*Prog {
 		}
 		add(t+"const-chain", []Param{{"a", t}, {"b", t}}, t, "\tx := a + 1 - 1\n\ty := b - 1 + 1\n\tx = x + 1 + 2\n\tif x > y {\n\t\ty = y + 100 + 100 - 1\n\t}\n\treturn x + y + 1 + 1\n", "")
 		add(t+"empty-bodies", []Param{{"a", t}, {"b", t}}, t, "\tx := a\n\tif a > b {\n\t}\n\tif a < b {\n\t} else {\n\t\tx++\n\t}\n\tfor i := 0; i < 2; i++ {\n\t}\n\tswitch {\n\tcase a == b:\n\tdefault:\n\t\tx += 2\n\t}\n\treturn x + b\n", "")
+		add(t+"const-index-forms", []Param{{"a", t}, {"b", t}}, t, "\tp := map[float64]"+t+"{5000000000: a, 2.5: b, 3: b}\n\tq := map[int]"+t+"{-1: a, 7: b}\n\ts := []"+t+"{a, b, a}\n\tp[5000000000] += b\n\tp[3] = a\n\tq[-1] += a\n\ts[2] = b\n\tx := p[5000000000] + p[3] + q[-1] + q[7] + s[2] + s[0]\n\tif len(p) != 3 {\n\t\tx += 1\n\t}\n\treturn x\n", "")
 		add(t+"incdec", []Param{{"a", t}}, t, "\tx := a\n\tx++\n\tx++\n\ty := x\n\ty--\n\treturn x + y\n", "")
 		add(t+"slice-elem", []Param{{"a", t}, {"b", t}}, t, fmt.Sprintf("\ts := []%s{a, b}\n\ts[0] = s[1] + 1\n\ts[1]++\n\ts[0] += 200\n\treturn s[0] + s[1]\n", t), "")
 		add(t+"field", []Param{{"a", t}, {"b", t}}, t, "\tp := &P{x: a}\n\tp.x = p.x + b\n\tp.x++\n\tp.x += 100\n\treturn p.x + p.get() + p.add(b)\n",
